@@ -37,6 +37,15 @@ pub(crate) use self::peers::FetchInfo;
 
 use prelude::*;
 
+#[cfg(feature = "verif")]
+#[allow(unused_imports)]
+pub(crate) mod verif_exports {
+    pub(crate) use super::components::verif_exports::*;
+    pub(crate) use super::sampling::{
+        estimate_k, estimate_samples_count, multiply, sample_blocks, FlyClientPDF,
+    };
+}
+
 pub(crate) use self::peers::{LastState, Peer, PeerState, Peers, ProveRequest, ProveState};
 use super::{
     status::{Status, StatusCode},
